@@ -2,6 +2,7 @@ import ChythonModel.Py.Wire
 import ChythonModel.Model.Stereo
 import ChythonModel.Model.StereoParse
 import ChythonModel.Model.StereoFix
+import ChythonModel.Model.StereoDiff
 /-!
 Line-protocol driver for C12. Every request is `<op> <int> …`; lists are length-prefixed; `-1` = `None`.
 
@@ -16,6 +17,7 @@ Line-protocol driver for C12. Every request is `<op> <int> …`; lists are lengt
   po strong tokens… / rct stereo_bonds counterpart            parser bookkeeping; direction marks → add_cis_trans_stereo calls
   aw / awh / ws                                               add_wedge (heavy / hydrogen target), __wedge_sign
   rdb endsDistinct shareRing <ringSizes>                      double bond reported as stereogenic (chiral_cis_trans)
+  df  n0 n1 n2 n3 (has class)^4 <Hatoms> stored               reference pair + mark computed by __differentiation for one unit
   fx  nA (n stereo tetra allene)^nA nB (n m order stereo tn tn' tm tm')^nB nT (k (kind a b s)^k j (kind a b)^j)^nT   fix_stereo
 Response: `ok <value>` or `err <PythonExceptionName>`; `bad` for a malformed request line.
 -/
@@ -191,9 +193,26 @@ def handleFx (xs : List Int) : Option String := do
     | [] => none
   | [] => none
 
+def handleDf (xs : List Int) : Option String :=
+  match xs with
+  | n0 :: n1 :: n2 :: n3 :: h0 :: c0 :: h1 :: c1 :: h2 :: c2 :: h3 :: c3 :: r => do
+    let (hs, r) ← takeList r
+    match r with
+    | [st] =>
+      let e := endsOf n0 n1 n2 n3
+      let tab : List (Nat × Int) :=
+        (if h0 != 0 then [(n0.toNat, c0)] else []) ++ (if h1 != 0 then [(n1.toNat, c1)] else []) ++
+        (if h2 != 0 && n2 ≥ 0 then [(n2.toNat, c2)] else []) ++ (if h3 != 0 && n3 ≥ 0 then [(n3.toNat, c3)] else [])
+      match ChythonModel.Model.StereoDiff.diffMark (fun x => tab.lookup x) e (hFun hs) (tri st) with
+      | .ok (a, b, v) => some s!"ok {a} {b} {if v then 1 else 0}"
+      | .error err => some ("err " ++ err.name)
+    | _ => none
+  | _ => none
+
 def handleInts (op : String) (xs : List Int) : Option String :=
   match op with
   | "fx" => handleFx xs
+  | "df" => handleDf xs
   | "tt" => do
     let (order, r) ← takeList xs
     let (env, r) ← takeList r
